@@ -84,7 +84,7 @@ theorem evolves_clearSubsRootItems (t : Table) (b : SId) : Evolves t (clearSubsR
   evolves_deleteAll _ t
 
 theorem evolves_nsChange (t : Table) (b : SId) : Evolves t (nsChange t b) :=
-  (evolves_clearItems t _).trans (evolves_deleteAll _ _)
+  (evolves_clearItems t _).trans (evolves_clearSubsRootItems _ b)
 
 theorem evolves_dynRefsChange (t : Table) (b : SId) : Evolves t (dynRefsChange t b) := evolves_deleteAll _ t
 
@@ -99,7 +99,7 @@ theorem evolves_applyEdit (t : Table) (k : EditKind) (b : SId) : Evolves t (appl
   · exact (evolves_nsChange t b).trans (evolves_dynRefsChange _ b)
   · exact (evolves_nsChange t b).trans (evolves_dynRefsChange _ b)
   · exact (evolves_nsChange t b).trans (evolves_dynRefsChange _ b)
-  · exact evolves_clearItems t _
+  · exact (evolves_clearItems t _).trans (evolves_clearSubsRootItems _ b)
   · exact evolves_clear t
 
 theorem evolves_foldl_nsChange : ∀ (l : List SDef) (t : Table),
@@ -108,9 +108,10 @@ theorem evolves_foldl_nsChange : ∀ (l : List SDef) (t : Table),
   | x :: xs, t => (evolves_nsChange t x.id).trans (evolves_foldl_nsChange xs _)
 
 theorem evolves_foldl_clearItems : ∀ (l : List SDef) (t : Table),
-    Evolves t (l.foldl (fun t x => clearItems t ⟨x.id, []⟩) t)
+    Evolves t (l.foldl (fun t x => clearItems (clearSubsRootItems t x.id) ⟨x.id, []⟩) t)
   | [], t => Evolves.refl t
-  | _ :: xs, t => (evolves_clearItems t _).trans (evolves_foldl_clearItems xs _)
+  | x :: xs, t => ((evolves_clearSubsRootItems t x.id).trans (evolves_clearItems _ _)).trans
+      (evolves_foldl_clearItems xs _)
 
 theorem evolves_delSpace (defs : Defs) (t : Table) (d : SDef) : Evolves t (delSpace defs t d).2 := by
   unfold delSpace
